@@ -3,6 +3,8 @@ package main
 // C17 / C13(tei): the real tei.Engine.Run on in-memory streams, the budget rule.
 
 import (
+	"github.com/nelhage/taktician/bitboard"
+	"time"
 	"bytes"
 	"context"
 	"encoding/hex"
@@ -81,10 +83,28 @@ func teiConfig(depth int) func(size int) ai.MinimaxConfig {
 	}
 }
 
+// teiConfigSlow: the built-in evaluator behind a leaf hook that sleeps, so that an already expired deadline is noticed
+// (the watcher goroutine runs) before the first ply has been searched
+func teiConfigSlow(depth int) func(size int) ai.MinimaxConfig {
+	return func(size int) ai.MinimaxConfig {
+		ev := ai.MakeEvaluator(size, nil)
+		return ai.MinimaxConfig{Size: size, Depth: depth, Seed: 1, TableMem: 1 << 16,
+			Evaluate: func(c *bitboard.Constants, p *tak.Position) int64 {
+				time.Sleep(400 * time.Microsecond)
+				return ev(c, p)
+			}}
+	}
+}
+
 // runTEI feeds the stream to a fresh engine and records output, state and installed deadline after every line.
 // detach: record the deadlines but do not let them act (deterministic output for tiny budgets).
 func runTEI(depth int, stream []byte, detach bool) (res teiRun) {
-	dls := &tei.VerifDeadlines{Detach: detach}
+	return runTEIMode(depth, stream, detach, false)
+}
+
+// expired: see tei.VerifDeadlines.Expired
+func runTEIMode(depth int, stream []byte, detach, expired bool) (res teiRun) {
+	dls := &tei.VerifDeadlines{Detach: detach, Expired: expired}
 	seenDl := 0
 	var out bytes.Buffer
 	chunks := splitStream(stream)
@@ -127,6 +147,9 @@ func runTEI(depth int, stream []byte, detach bool) (res teiRun) {
 	}
 	e = tei.NewEngine(rd, &out)
 	e.ConfigFactory = teiConfig(depth)
+	if expired {
+		e.ConfigFactory = teiConfigSlow(depth)
+	}
 	func() {
 		defer func() {
 			if r := recover(); r != nil {
@@ -313,6 +336,11 @@ func init() {
 	}
 	opTable["tei"] = func(s *Session, a []string) string {
 		return runTEI(atoi(a[0]), unhexOrDash(a[1]), true).render(false)
+	}
+	// teiexp: every `go` that installs a deadline finds it already passed: the search is cancelled inside its first ply, no
+	// iteration completes, there is no move to report - and none may be invented
+	opTable["teiexp"] = func(s *Session, a []string) string {
+		return runTEIMode(atoi(a[0]), unhexOrDash(a[1]), false, true).render(false)
 	}
 	opTable["teiclass"] = func(s *Session, a []string) string {
 		return runTEI(atoi(a[0]), unhexOrDash(a[1]), false).render(true)
